@@ -10,6 +10,7 @@ from vlib import Unit
 BV = 'crates/grafeo-core/src/storage/bitvec.rs'
 BP = 'crates/grafeo-core/src/storage/bitpack.rs'
 DE = 'crates/grafeo-core/src/storage/delta.rs'
+RL = 'crates/grafeo-core/src/storage/runlength.rs'
 
 TEMPLATE = r'''
 use vstd::prelude::*;
@@ -30,6 +31,17 @@ pub uninterp spec fn unle4(s: Seq<u8>) -> u32;
 #[verifier::external_body] fn get_le_u64(b: &[u8], a: usize) -> (r: u64) requires a + 8 <= b@.len() ensures r == unle8(b@.subrange(a as int, a + 8)) { u64::from_le_bytes(b[a..a + 8].try_into().unwrap()) }
 #[verifier::external_body] fn get_le_u32(b: &[u8], a: usize) -> (r: u32) requires a + 4 <= b@.len() ensures r == unle4(b@.subrange(a as int, a + 4)) { u32::from_le_bytes(b[a..a + 4].try_into().unwrap()) }
 #[verifier::external_body] fn suffix(b: &[u8], a: usize) -> (r: &[u8]) requires a <= b@.len() ensures r@ == b@.subrange(a as int, b@.len() as int) { &b[a..] }
+#[verifier::external_body] fn le_u64_of(b: [u8; 8]) -> (r: u64) ensures r == unle8(b@) { u64::from_le_bytes(b) }
+// R31: std::io::Cursor<&[u8]> with read_exact into an 8-byte buffer - ASSUMED std behaviour over the abstract `rest` (bytes not yet consumed)
+#[verifier::external_body] pub struct ByteCursor<'a> { c: std::io::Cursor<&'a [u8]> }
+impl<'a> ByteCursor<'a> {
+    pub uninterp spec fn rest(&self) -> Seq<u8>;
+    #[verifier::external_body] fn new(b: &'a [u8]) -> (r: Self) ensures r.rest() == b@ { ByteCursor { c: std::io::Cursor::new(b) } }
+    #[verifier::external_body] fn read_exact(&mut self, buf: &mut [u8; 8]) -> (r: io::Result<()>)
+        ensures old(self).rest().len() >= 8 ==> r is Ok && final(buf)@ == old(self).rest().subrange(0, 8) && final(self).rest() == old(self).rest().subrange(8, old(self).rest().len() as int),
+                old(self).rest().len() < 8 ==> r is Err,
+    { use std::io::Read; self.c.read_exact(buf) }
+}
 #[verifier::external_type_specification] #[verifier::external_body] pub struct ExIoError(std::io::Error);
 #[verifier::external_body] fn io_invalid_data() -> io::Error { io::Error::new(io::ErrorKind::InvalidData, "") }
 
@@ -147,6 +159,47 @@ impl DeltaEncoding {
     @@DeltaEncoding::from_bytes@@
 }
 
+@@Run@@
+impl<T> Run<T> {
+    @@Run::new@@
+}
+@@RunLengthEncoding@@
+pub open spec fn total_len(runs: Seq<Run<u64>>) -> nat
+    decreases runs.len()
+{ if runs.len() == 0 { 0 } else { total_len(runs.drop_last()) + runs.last().length as nat } }
+/// value0, length0, value1, length1, ...
+pub open spec fn flat(runs: Seq<Run<u64>>) -> Seq<u64> { Seq::new(2 * runs.len(), |i: int| if i % 2 == 0 { runs[i / 2].value } else { runs[i / 2].length }) }
+proof fn lemma_flat_take(runs: Seq<Run<u64>>, n: int)
+    requires 0 <= n < runs.len()
+    ensures words_le(flat(runs.take(n + 1))) == words_le(flat(runs.take(n))) + le8(runs[n].value) + le8(runs[n].length)
+{
+    let a = flat(runs.take(n)); let b = flat(runs.take(n + 1));
+    let m = a.push(runs[n].value);
+    assert(b =~= m.push(runs[n].length));
+    assert(b.drop_last() =~= m); assert(m.drop_last() =~= a);
+    assert(words_le(b) =~= words_le(m) + le8(runs[n].length));
+    assert(words_le(m) =~= words_le(a) + le8(runs[n].value));
+}
+proof fn lemma_total_take(runs: Seq<Run<u64>>, n: int)
+    requires 0 <= n < runs.len()
+    ensures total_len(runs.take(n + 1)) == total_len(runs.take(n)) + runs[n].length as nat, total_len(runs.take(n)) <= total_len(runs),
+    decreases runs.len() - n
+{
+    assert(runs.take(n + 1).drop_last() =~= runs.take(n));
+    if n + 1 < runs.len() { lemma_total_take(runs, n + 1); } else { assert(runs.take(n + 1) =~= runs); }
+}
+impl RunLengthEncoding {
+    pub open spec fn ser(&self) -> Seq<u8> { le8(self.runs@.len() as u64) + words_le(flat(self.runs@)) }
+    /// the unit RLE's representation invariant: total_count is the sum of the run lengths
+    pub open spec fn wf(&self) -> bool { self.total_count as nat == total_len(self.runs@) }
+
+    @@RunLengthEncoding::from_runs@@
+
+    @@RunLengthEncoding::to_bytes@@
+
+    @@RunLengthEncoding::from_bytes@@
+}
+
 // ---- the C15 clause, over the contracts alone -----------------------------------------------------------
 // from_bytes(to_bytes(x)) has the same header fields and exactly the words the header calls for (trailing spare words, which no
 // constructor creates but the type allows, are not carried) - and therefore DECODES to the same sequence (lemmas below).
@@ -181,6 +234,10 @@ fn delta_bitpacked_bytes_roundtrip(x: &DeltaBitPacked) -> (r: io::Result<DeltaBi
     proof { x.deltas.lemma_view_needs_only_nw_words(); }
     r
 }
+fn rle_bytes_roundtrip(x: &RunLengthEncoding) -> (r: io::Result<RunLengthEncoding>)
+    requires x.wf(), x.runs@.len() <= 0x00ff_ffff_ffff_ffff,
+    ensures r is Ok && r->Ok_0.runs@ == x.runs@ && r->Ok_0.total_count == x.total_count,
+{ let n = x.runs.len(); let b = x.to_bytes(); proof { assert(x.wf() && x.runs@.len() <= usize::MAX && b@ == x.ser()); } RunLengthEncoding::from_bytes(b.as_slice()) }
 fn delta_bytes_roundtrip(x: &DeltaEncoding) -> (r: io::Result<DeltaEncoding>)
     requires x.ser_ok(), x.deltas@.len() <= 0x0fff_ffff_ffff_ff00,
     ensures r is Ok && r->Ok_0.base == x.base && r->Ok_0.count == x.count && r->Ok_0.deltas@ == x.deltas@.take(x.nd()),
@@ -330,5 +387,85 @@ def build(repo):
     L.after('''proof {
     assert %s implies deltas@ == x.deltas@.take(x.nd()) && x.count == count && x.base == base by { axiom_le(); %s if count == 0 { assert(deltas@ =~= x.deltas@.take(0)); } }
 }''' % (Q, HDR))
-    u.not_covered += ['RunLengthEncoding::{to_bytes, from_bytes} (io::Cursor / Read: no Verus model)', 'behaviour of from_bytes on bytes that are NOT a serialised block (e.g. bits_per_value > 64 divides by zero) - outside the property']
+
+    # ---- RunLengthEncoding (io::Cursor based reader: rule R31) ----
+    u.trust('external_body le_u64_of', 'R31: u64::from_le_bytes on a [u8; 8]; ASSUMED to return unle8 of the bytes')
+    u.trust('external_body ByteCursor', 'R31: stand-in for std::io::Cursor<&[u8]>'); u.trust('external_body ByteCursor::new', 'R31: Cursor::new starts at position 0')
+    u.trust('external_body ByteCursor::read_exact', 'R31: std Cursor<&[u8]>::read_exact copies exactly 8 bytes and consumes them, or fails when fewer remain')
+    u.item(RL, 'struct', 'Run').D1(keep_derive=set())
+    u.method(RL, 'Run', 'new').D1().ret('r').ensures('fields', 'r.value == value && r.length == length')
+    u.item(RL, 'struct', 'RunLengthEncoding').D1(keep_derive=set()).V1()
+    f = u.method(RL, 'RunLengthEncoding', 'from_runs').D1().R30('total_count').ret('r')
+    f.requires('total_fits', 'total_len(runs@) <= usize::MAX')        # machine range of the sum of the run lengths
+    f.ensures('fields', 'r.runs@ == runs@ && r.wf()')
+    L = f.loop(0).kind('for').iter('it')
+    L.invariants(('partial_sum', 'total_count as nat == total_len(runs@.take(it.index@ as int)) && total_len(runs@) <= usize::MAX'), ('iter', ITER % ('runs', 'runs')))
+    L.before('proof { assert(runs@.take(0) =~= Seq::<Run<u64>>::empty()); }')
+    L.body_start('proof { lemma_total_take(runs@, it.index@ as int); if it.index@ + 1 < runs@.len() { lemma_total_take(runs@, it.index@ + 1); } else { assert(runs@.take(it.index@ + 1) =~= runs@); } }')
+    L.after('proof { assert(runs@.take(runs@.len() as int) =~= runs@); }')
+    f = u.method(RL, 'RunLengthEncoding', 'to_bytes').D1().R23().ret('bytes')
+    f.resub('R2', r'in &self\.runs \{', 'in self.runs.iter() {')
+    f.requires('capacity_room', 'self.runs@.len() <= 0x00ff_ffff_ffff_ffff')
+    f.ensures('layout', 'bytes@ == self.ser()')
+    HR = 'le8(self.runs@.len() as u64)'
+    L = f.loop(0).kind('for').iter('it')
+    L.invariants(('layout_prefix', 'bytes@ == %s + words_le(flat(self.runs@.take(it.index@ as int)))' % HR), ('iter', ITER % ('self.runs', 'self.runs')))
+    L.before('proof { assert(flat(self.runs@.take(0)) =~= Seq::<u64>::empty()); assert(bytes@ =~= %s + words_le(flat(self.runs@.take(0)))); }' % HR)
+    L.body_end('proof { lemma_flat_take(self.runs@, it.index@ as int); assert(bytes@ =~= %s + words_le(flat(self.runs@.take(it.index@ + 1)))); }' % HR)
+    L.after('proof { assert(self.runs@.take(self.runs@.len() as int) =~= self.runs@); }')
+    f = u.method(RL, 'RunLengthEncoding', 'from_bytes').D1().R31().ret('r')
+    f.resub('R27', r'for _ in ', 'for i__ in ')
+    Q = 'forall|x: RunLengthEncoding| x.wf() && bytes@ == #[trigger] x.ser()'
+    f.ensures('inverse_of_to_bytes', Q + ' ==> r is Ok && r->Ok_0.runs@ == x.runs@ && r->Ok_0.total_count == x.total_count')
+    # domain: serialised blocks only (on other bytes `.sum()` of the run lengths may overflow and `Vec::with_capacity(run_count)` may abort - outside C15)
+    f.requires('is_a_serialised_block', 'exists|x: RunLengthEncoding| x.wf() && x.runs@.len() <= usize::MAX && bytes@ == #[trigger] x.ser()')
+    f.body_start('''proof { axiom_le(); }
+let ghost X = choose|x: RunLengthEncoding| x.wf() && x.runs@.len() <= usize::MAX && bytes@ == #[trigger] x.ser();
+proof { lemma_words_le(flat(X.runs@)); assert(bytes@.len() == 8 + 16 * X.runs@.len()); }''')
+    f.before('cursor.read_exact(&mut buf)?;', 'proof { assert(cursor.rest().len() >= 8); }', nth=0)
+    L = f.loop(0).kind('for')
+    L.invariants(('position', 'run_count == X.runs@.len() && bytes@ == X.ser() && X.wf() && bytes@.len() == 8 + 16 * X.runs@.len() && cursor.rest() == bytes@.subrange(8 + 16 * i__, bytes@.len() as int) && runs@ == X.runs@.take(i__ as int)'),)
+    L.before('''proof {
+    assert(buf@ =~= bytes@.subrange(0, 8));
+    assert(bytes@.subrange(0, 8) =~= le8(X.runs@.len() as u64));
+    axiom_le();
+    assert(X.runs@.len() <= usize::MAX);
+    assert(unle8(buf@) == X.runs@.len() as u64);
+    assert((X.runs@.len() as u64) as usize == X.runs@.len());
+    assert(run_count == X.runs@.len());
+    assert(cursor.rest() =~= bytes@.subrange(8, bytes@.len() as int));
+    assert(runs@ =~= X.runs@.take(0));
+}''')
+    L.body_start('let ghost rest0 = cursor.rest();\nproof { assert(rest0.len() >= 16); }')
+    f.before('cursor.read_exact(&mut buf)?;', 'proof { assert(cursor.rest().len() >= 8); }', nth=2)
+    L.body_end('''proof {
+    lemma_words_le(flat(X.runs@)); axiom_le();
+    let w = words_le(flat(X.runs@));
+    assert(bytes@.subrange(0, 8) =~= le8(X.runs@.len() as u64));
+    assert(rest0.subrange(0, 8) =~= w.subrange(8 * (2 * i__), 8 * (2 * i__) + 8));
+    assert(rest0.subrange(8, rest0.len() as int).subrange(0, 8) =~= w.subrange(8 * (2 * i__ + 1), 8 * (2 * i__ + 1) + 8));
+    assert(flat(X.runs@)[2 * i__] == X.runs@[i__ as int].value && flat(X.runs@)[2 * i__ + 1] == X.runs@[i__ as int].length);
+    assert(cursor.rest() =~= bytes@.subrange(8 + 16 * (i__ + 1), bytes@.len() as int));
+    assert(X.runs@.take(i__ + 1) =~= X.runs@.take(i__ as int).push(X.runs@[i__ as int]));
+}''')
+    L.after('''proof {
+    assert(X.runs@.take(X.runs@.len() as int) =~= X.runs@);
+    assert(runs@ == X.runs@ && total_len(runs@) <= usize::MAX);
+    // the serialisation determines the block: any other wf x with the same bytes has the same runs
+    assert %s implies x.runs@ == X.runs@ && x.total_count == X.total_count by {
+        lemma_words_le(flat(x.runs@)); lemma_words_le(flat(X.runs@)); axiom_le();
+        assert(bytes@.subrange(0, 8) =~= le8(x.runs@.len() as u64));
+        assert(x.runs@.len() == X.runs@.len());
+        assert forall|k: int| 0 <= k < x.runs@.len() implies x.runs@[k] == X.runs@[k] by {
+            let wx = words_le(flat(x.runs@)); let wX = words_le(flat(X.runs@));
+            assert(wx =~= bytes@.subrange(8, bytes@.len() as int)); assert(wX =~= bytes@.subrange(8, bytes@.len() as int));
+            assert(wx.subrange(8 * (2 * k), 8 * (2 * k) + 8) == le8(flat(x.runs@)[2 * k])); assert(wX.subrange(8 * (2 * k), 8 * (2 * k) + 8) == le8(flat(X.runs@)[2 * k]));
+            assert(wx.subrange(8 * (2 * k + 1), 8 * (2 * k + 1) + 8) == le8(flat(x.runs@)[2 * k + 1])); assert(wX.subrange(8 * (2 * k + 1), 8 * (2 * k + 1) + 8) == le8(flat(X.runs@)[2 * k + 1]));
+            assert(flat(x.runs@)[2 * k] == x.runs@[k].value && flat(x.runs@)[2 * k + 1] == x.runs@[k].length);
+            assert(flat(X.runs@)[2 * k] == X.runs@[k].value && flat(X.runs@)[2 * k + 1] == X.runs@[k].length);
+        }
+        assert(x.runs@ =~= X.runs@);
+    }
+}''' % Q)
+    u.not_covered += [ 'behaviour of from_bytes on bytes that are NOT a serialised block (e.g. bits_per_value > 64 divides by zero) - outside the property']
     return u
